@@ -21,6 +21,14 @@ def tx(name, filt, expect=1, **kw):
     return d
 
 
+def loom(name, flavour, package, filt, expect, threads=8, poison=True):
+    d = {"kind": "mounted", "name": name, "engine": "loommc", "flavour": flavour, "package": package, "filter": filt,
+         "expect_reports": expect, "test_threads": threads}
+    if poison:
+        d["env"] = {"quick": {"VERIF_LOOMMC_POISON": "all"}, "thorough": {"VERIF_LOOMMC_POISON": "all"}}
+    return d
+
+
 NET_NOTE = ("netmc: real client + real server on the repository's deterministic executor with a harness-owned network; "
             "every schedule with <= k deviations (drop / duplicate / delay-past-next-flight, plus corrupt / truncate with real TLS, "
             "plus blackholes where listed) at every datagram index of every scenario of the families data, live, flow, lifecycle, hs "
@@ -179,11 +187,31 @@ PROPERTIES = {
     },
     "C19": {
         "title": "dc: a key ID is accepted at most once and issued at most once",
-        "steps": [seq("c19.*")],
+        "steps": [seq("c19.*"), loom("loommc_dc", "loomx", "s2n-quic-dc", "verif_loommc::c19_", 7, poison=False)],
         "technique": "explicit-state BFS of the real replay window and key-id issuer against exact set models",
         "level_text": "c19.replay: every sequence of length <= 5 (quick) / 7 (thorough) over 21 key ids (0,1,2, window edges 894..898 and 1790..1794, around 2^32, MAX-2..MAX) on the real receiver::State, compared step by step (result kind and minimum_unseen_key_id) with an exact model: accept <=> unseen and id != MAX and (id > max or max - id < 896). c19.sender: ids issued through the public sealing paths under sequences of issue / genuine signed StaleKey(v) notifications: pairwise distinct, strictly increasing, distinct nonces and ciphertexts.",
-        "level_note": "Sequential part only in this revision: the concurrent clauses (threads calling post_authentication / next_key_id) are decided by the loom engine when it is registered. Trusted: the set model in engines/seqmc/src/c19.rs.",
+        "level_note": "Concurrent part (loommc, hook H4, loom 0.7 with preemption bound 2 quick / 3 thorough): 2-3 threads calling the real receiver::State::post_authentication (same id, replay after a backwards jump, window edge, far jump) - each id Ok at most once and the result multiset equals that of some sequential order against the set model; next_key_id racing update_for_stale_key - no id issued twice. Trusted: the set model in engines/seqmc/src/c19.rs.",
         "design_ref": "DESIGN.md §3 C19",
         "assumptions": ["small-scope hypothesis"],
+    },
+    "C17": {
+        "title": "Lock-free queues and wakers lose nothing under any thread interleaving",
+        "steps": [loom("loommc_core", "loomcore", "s2n-quic-core", "verif_loommc::c17_", 24),
+                  loom("loommc_wakeup", "loomx", "s2n-quic-transport", "verif_loommc::c17_wq_", 3, threads=4, poison=False),
+                  seq("c17.*")],
+        "technique": "controlled-scheduler exploration (loom, bounded DPOR over the C11 model) of the real spsc / worker / atomic_waker / cursor / wakeup_queue code + explicit-state search of the real socket::ring",
+        "level_text": "loommc: 27 scenarios on the real code, every interleaving and every value the C11 model lets a load observe up to preemption bound 2 (quick) / 3 (thorough), each in its own child process: spsc capacity 2 FIFO with a shadow-cell array (a missing release/acquire edge is a loom causality violation), close/drop of either side after 0/1/2 pushes while the peer is parked, both sides dropped concurrently with items inside (exactly-once delivery-or-drop counted), use-after-free detection with a poisoning allocator; worker submit vs park, last sender dropped, cloned senders; atomic_waker poll_close vs drop, wake vs register; Cursor producer/consumer pairs over constructed loom atomics composed with atomic_waker exactly as socket::ring composes them; wakeup_queue two handles vs the polling endpoint and re-arming. Lost wake-ups are loom deadlocks. seqmc c17.ring: the real socket::ring Producer/Consumer under every interleaving of whole API calls (entries 2/4/8, to fixpoint): the consumer sees exactly the producer's messages in order, across the primary/secondary wrap.",
+        "level_note": "Two genuine defects were repaired by fix: commits (spsc close use-after-free; worker::Sender::clone not counted). loom explores a sound subset of C11 for the listed scenario sizes; socket::ring cannot run under loom (atomics conjured from zeroed memory), its park/wake composition is covered through a 6-line transcription; the cursor u32 wrap is not reached. A capped scenario reports exhaustive:false and is never a verdict.",
+        "design_ref": "DESIGN.md §3 C17",
+        "assumptions": ["loom's model of C11", "scenario sizes: capacity 2, 2-3 batches, 2-3 threads"],
+    },
+    "C07": {
+        "title": "Interoperates with an independent RFC 9000/9001 implementation",
+        "steps": [{"kind": "bin", "engine": "quichemc", "families": ["C07"]}],
+        "technique": "deviation-bounded exploration of real s2n-quic <-> quiche 0.29 connections on one virtual clock",
+        "level_text": "quiche (vendored crate, BoringSSL) runs as the peer inside the same deterministic executor through the testing Socket; its wall clock is bound to virtual time by defining clock_gettime in the harness binary and its randomness by wrapping RAND_bytes. Scenario grid (quick: 3-wise covering subset of 33, thorough: all 176): role {s2n client, s2n server} x s2n windows {20 B, 1 KB, default} x quiche windows x stream limits {1, 3} x datagram size {1200, 1350} x transfer {14 B, 5 KB, 40 KB both ways}; every datagram dropped / duplicated / delayed once (k <= 2 on the small transfers). Oracle: handshake completes on both sides, bytes read equal the PRF payload written by the other side at every read and in total, no transport error on either side, no idle timeout before the script's own close, completion before the horizon.",
+        "level_note": "One independent implementation, one virtual clock; with 20-byte windows the large transfers are cut to 1000 B. Reproducibility self-check on what the applications observed (TLS signature lengths vary by 2 bytes).",
+        "design_ref": "DESIGN.md §3 C07",
+        "assumptions": ["quiche 0.29.3 is a conforming RFC 9000/9001 implementation", "small-scope hypothesis"],
     },
 }
